@@ -333,6 +333,30 @@ def run(ctx: Any, prog: Program) -> None:
                         p = kv.parents.get(p)
                     ctx.check('C01.R5', guarded, kv, n, 'replacement of an already parsed child must be reachable only after a PROP_FLAG token')
 
+    # ---- R8: what _serialise renders is what comes out ----------------------------------------------------------------------
+    # The public wrapper only chooses the stream and the brace spelling.  Text that is rendered into a side buffer and then re-cut by a
+    # line-oriented function (textwrap.indent, splitlines, replace) is re-interpreted *as lines*: characters inside the quotes that such a
+    # function treats as line ends (U+001C-1E, U+0085, U+2028/9) get the indent inserted after them.
+    ctx.rule('C01.R8', 'Keyvalues.serialise hands the rendered text on unchanged: it writes nothing itself and returns buffer.getvalue() as is', floor=2)
+    ser = kv.func('Keyvalues.serialise')
+    n_r8 = 0
+    for c in walk_no_nested(ser):
+        if isinstance(c, ast.Call) and isinstance(c.func, ast.Attribute) and c.func.attr in ('write', 'writelines') and c.args:
+            n_r8 += 1
+            rendered = any(isinstance(x, ast.Call) and isinstance(x.func, ast.Attribute) and x.func.attr in ('getvalue', 'read') for x in ast.walk(c.args[0]))
+            plain = isinstance(c.args[0], ast.Call) and isinstance(c.args[0].func, ast.Attribute) and c.args[0].func.attr == 'getvalue' and not c.args[0].args
+            ctx.check('C01.R8', not rendered or plain, kv, c, f'Keyvalues.serialise writes `{U(c.args[0])[:70]}`: the rendered text is passed through another function before it reaches the file, which re-reads quoted content '
+                      'as layout (line-oriented helpers split at U+001C-1E, U+0085, U+2028/9 as well)', func='Keyvalues.serialise', text='rendered text written unchanged')
+    for r in walk_no_nested(ser):
+        if isinstance(r, ast.Return) and r.value is not None and not (isinstance(r.value, ast.Constant) and r.value.value is None):
+            n_r8 += 1
+            plain = isinstance(r.value, ast.Call) and isinstance(r.value.func, ast.Attribute) and r.value.func.attr == 'getvalue' and not r.value.args and isinstance(r.value.func.value, ast.Name)
+            rendered = any(isinstance(x, ast.Call) and isinstance(x.func, ast.Attribute) and x.func.attr == 'getvalue' for x in ast.walk(r.value))
+            ctx.shape('C01.R8', plain or rendered, kv, r, 'serialise returns the buffer contents', func='Keyvalues.serialise', text='rendered text returned unchanged')
+            if plain or rendered:
+                ctx.check('C01.R8', plain, kv, r, f'Keyvalues.serialise returns `{U(r.value)[:70]}` instead of the buffer contents as rendered', func='Keyvalues.serialise', text='rendered text returned unchanged')
+    sers = [c for c in walk_no_nested(ser) if isinstance(c, ast.Call) and isinstance(c.func, ast.Attribute) and c.func.attr == '_serialise']
+    ctx.shape('C01.R8', len(sers) >= 1, kv, ser, 'serialise delegates to _serialise', func='Keyvalues.serialise', text='delegates to _serialise')
     # ---- R7: what parse refuses -------------------------------------------------------------------------------------
     # The writer can put every character into a quoted string; the only content parse may refuse is a line break (LF / CR) in a name
     # (or, on request, in a value).  A rejection test on the token text that is broader than `'\n' in x or '\r' in x` refuses text
@@ -395,6 +419,8 @@ def _in_orelse(ifnode: ast.If, node: ast.AST, mod: Any) -> bool:
 
 
 MUTANTS = [
+    {'id': 'start_indent_through_textwrap', 'file': 'keyvalues.py', 'find': "        self._serialise(file, indent, open_brace, close_brace, start_indent)\n", 'replace': "        if start_indent:\n            import textwrap\n            block = io.StringIO()\n            self._serialise(block, indent, open_brace, close_brace, '')\n            file.write(textwrap.indent(block.getvalue(), start_indent))\n        else:\n            self._serialise(file, indent, open_brace, close_brace, start_indent)\n", 'expect': 'C01.R8'},
+    {'id': 'serialise_returns_stripped', 'file': 'keyvalues.py', 'find': "        if buffer is not None:\n            return buffer.getvalue()\n        return None\n\n    def _serialise(", 'replace': "        if buffer is not None:\n            return buffer.getvalue().replace('\\r', '')\n        return None\n\n    def _serialise(", 'expect': 'C01.R8'},
     {'id': 'escape_wrapper_fast_path_accepts_cr', 'file': 'keyvalues.py', 'find': """            file.write(f'{cur_indent}"{escape_text(self._real_name)}" "{escape_text(self._value)}"\\n')\n\n    serialize""", 'replace': """            file.write(f'{cur_indent}"{_escape(self._real_name)}" "{_escape(self._value)}"\\n')\n\n    serialize""", 'extra': [{'file': 'keyvalues.py', 'find': "def _read_flag(", 'replace': "_PLAIN_TEXT = re.compile(r'[\\w\\s./+:,-]*')\n\n\ndef _escape(text: str) -> str:\n    if _PLAIN_TEXT.fullmatch(text) is not None:\n        return text\n    return escape_text(text)\n\n\ndef _read_flag("}, {'file': 'keyvalues.py', 'find': "import sys\n", 'replace': "import sys\nimport re\n"}], 'expect': 'C01.R1'},
     {'id': 'escape_wrapper_fast_path_words_only', 'file': 'keyvalues.py', 'find': """            file.write(f'{cur_indent}"{escape_text(self._real_name)}" "{escape_text(self._value)}"\\n')\n\n    serialize""", 'replace': """            file.write(f'{cur_indent}"{_escape(self._real_name)}" "{_escape(self._value)}"\\n')\n\n    serialize""", 'extra': [{'file': 'keyvalues.py', 'find': "def _read_flag(", 'replace': "_PLAIN_TEXT = re.compile(r'[A-Za-z0-9_ ./+:,-]*')\n\n\ndef _escape(text: str) -> str:\n    if _PLAIN_TEXT.fullmatch(text) is not None:\n        return text\n    return escape_text(text)\n\n\ndef _read_flag("}, {'file': 'keyvalues.py', 'find': "import sys\n", 'replace': "import sys\nimport re\n"}], 'expect': None},
     {'id': 'leaf_escaped_jointly_and_split', 'file': 'keyvalues.py', 'find': """            file.write(f'{cur_indent}"{escape_text(self._real_name)}" "{escape_text(self._value)}"\\n')\n\n    serialize""", 'replace': """            name, _, value = escape_text(f'{self._real_name}\\x1f{self._value}').partition('\\x1f')\n            file.write(f'{cur_indent}"{name}" "{value}"\\n')\n\n    serialize""", 'expect': 'C01.R1'},
